@@ -172,6 +172,9 @@ func eqInts(a, b []int) bool {
 
 const c09Alphabet = "abcABz12 /.-_é¦日"
 
+// the characters of the multi-byte words used by the directed word-motion profile (the spec is told which are letters)
+const c09WordChars = "héllowörld日本ünïañb©opyßx"
+
 func c09Alnum(cfg c09Cfg) Val {
 	seen := map[rune]bool{}
 	out := []Val{}
@@ -185,7 +188,7 @@ func c09Alnum(cfg c09Cfg) Val {
 			}
 		}
 	}
-	add(c09Alphabet + "x" + cfg.Query + c09ExtraLine)
+	add(c09Alphabet + "x" + cfg.Query + c09ExtraLine + c09WordChars)
 	for _, l := range cfg.Lines {
 		add(l)
 	}
@@ -916,9 +919,52 @@ func c09GenStep(r *RNG, cfg c09Cfg, cur c09Obs, k int) []c09Step {
 		}
 	}
 	queryLen := len([]rune(cur.Query))
-	kind := r.Intn(22)
+	kind := r.Intn(26)
+	marker := []c09Step{{Kind: "post", Acts: []c09Act{{Name: "put", Arg: "¦"}}}, {Kind: "post", Acts: []c09Act{{Name: "backward-delete-char"}}}}
 	switch {
-	case kind >= 20:
+	case kind >= 24 && cfg.Disabled && !cfg.NoInput:
+		// word motions and word kills on a query of multi-byte words: the cursor counts runes, not bytes; every motion is
+		// followed by the marker so that the cursor position is seen (directed after seeded change C09-4)
+		words := []string{"héllo", "wörld", "日本", "ünï", "a", "añb", "x", "é", "©opy", "ß"}
+		q := ""
+		for i, n := 0, r.Range(2, 4); i < n; i++ {
+			if i > 0 {
+				q += Pick(r, []string{" ", "  ", "/", " "})
+			}
+			q += Pick(r, words)
+		}
+		steps := []c09Step{{Kind: "post", Acts: []c09Act{{Name: "change-query", Arg: q}, {Name: Pick(r, []string{"beginning-of-line", "beginning-of-line", "end-of-line", "backward-word"})}}}}
+		for i, n := 0, r.Range(1, 4); i < n; i++ {
+			steps = append(steps, c09Step{Kind: "post", Acts: []c09Act{{Name: Pick(r, []string{"forward-word", "forward-word", "backward-word", "kill-word", "backward-kill-word", "unix-word-rubout", "forward-char"})}}})
+			steps = append(steps, marker...)
+		}
+		if r.Chance(1, 2) {
+			steps = append(steps, c09Step{Kind: "post", Acts: []c09Act{{Name: "end-of-line"}, {Name: "yank"}}})
+		}
+		return steps
+	case kind >= 22 && kind < 24 && cfg.Disabled && !cfg.NoInput:
+		// what was killed must come back unchanged however the query is edited IN PLACE afterwards
+		// (directed after seeded change C09-1: the kill buffer shared memory with the query)
+		q := c09RandText(r, r.Range(4, 9), cfg)
+		steps := []c09Step{{Kind: "post", Acts: []c09Act{{Name: "change-query", Arg: q}, {Name: "beginning-of-line"}}}}
+		for i, n := 0, r.Intn(4); i < n; i++ {
+			steps[0].Acts = append(steps[0].Acts, c09Act{Name: Pick(r, []string{"forward-char", "forward-char", "forward-word"})})
+		}
+		steps = append(steps, c09Step{Kind: "post", Acts: []c09Act{{Name: Pick(r, []string{"kill-line", "kill-line", "kill-word", "unix-line-discard", "backward-kill-word", "unix-word-rubout"})}}})
+		edits := c09Step{Kind: "post"}
+		for i, n := 0, r.Range(1, 4); i < n; i++ {
+			switch r.Intn(4) {
+			case 0:
+				edits.Acts = append(edits.Acts, c09Act{Name: "backward-delete-char"})
+			case 1:
+				edits.Acts = append(edits.Acts, c09Act{Name: "beginning-of-line"}, c09Act{Name: "put", Arg: c09RandText(r, r.Range(1, 3), cfg)})
+			default:
+				edits.Acts = append(edits.Acts, c09Act{Name: "put", Arg: c09RandText(r, r.Range(1, 5), cfg)})
+			}
+		}
+		steps = append(steps, edits, c09Step{Kind: "post", Acts: []c09Act{{Name: Pick(r, []string{"end-of-line", "beginning-of-line"})}, {Name: "yank"}}})
+		return steps
+	case kind >= 20 && kind < 22:
 		// the limit changes while lines are selected: select some lines (switching multi-select on first if it is off),
 		// change the limit (off / lower / the same / higher / unlimited / not a limit), then act on the selection again under
 		// the new limit; every part is its own step, so that the state right after the change is looked at
@@ -965,6 +1011,39 @@ func c09GenStep(r *RNG, cfg c09Cfg, cur c09Obs, k int) []c09Step {
 		t2 := c09RandText(r, 1, cfg)
 		for i := 0; i < 5 && t2 == t1; i++ {
 			t2 = c09RandText(r, 1, cfg)
+		}
+		if r.Chance(1, 2) {
+			// two queries that list the SAME NUMBER of lines but different ones (a selection exactly as large as the new list)
+			sets := map[string][]string{}
+			for _, ch := range "abcABC12._/é " {
+				key := ""
+				for i, l := range cfg.Lines {
+					if strings.ContainsRune(strings.ToLower(l), ch) || strings.ContainsRune(l, ch) {
+						key += fmt.Sprint(i, ",")
+					}
+				}
+				if key != "" {
+					n := fmt.Sprint(strings.Count(key, ","))
+					dup := false
+					for _, o := range sets[n] {
+						dup = dup || o == key+"|"+string(ch)
+					}
+					if !dup {
+						sets[n] = append(sets[n], key+"|"+string(ch))
+					}
+				}
+			}
+			for _, n := range []string{"1", "2", "3", "4", "5", "6"} {
+				g := sets[n]
+				for i := 0; i < len(g); i++ {
+					for j := i + 1; j < len(g); j++ {
+						ki, kj := g[i][:strings.LastIndex(g[i], "|")], g[j][:strings.LastIndex(g[j], "|")]
+						if ki != kj {
+							t1, t2 = g[i][strings.LastIndex(g[i], "|")+1:], g[j][strings.LastIndex(g[j], "|")+1:]
+						}
+					}
+				}
+			}
 		}
 		second := Pick(r, []string{"select-all", "select-all", "toggle-all", "deselect-all"})
 		return []c09Step{
